@@ -315,6 +315,17 @@ func runC14(c *core.Ctx) {
 				m.Addrs[j].Style = []byte("SSU2")
 			}
 		}
+		if i%40 == 11 {
+			// more addresses than the one-byte count can say (256, 257, 300, 511, 512): refused, or
+			// whatever is returned validates and round-trips like any other value
+			want := []int{256, 257, 300, 511, 512, 255}[(i/40)%6]
+			for len(m.Addrs) < want {
+				a := gen.RouterAddress(r)
+				a.Options = rm.Mapping{}
+				a.Style = []byte("SSU2")
+				m.Addrs = append(m.Addrs, a)
+			}
+		}
 		sh["addrs"] = len(m.Addrs)
 		sh["published_zero"] = m.Published == 0
 		c.Eval(1)
@@ -449,6 +460,49 @@ func runC14(c *core.Ctx) {
 			if d != nil && sk != nil && ek != nil {
 				_, err := lease_set.NewLeaseSet(*d, ek, sk, many, priv)
 				c14Defect(c, "lease_set.NewLeaseSet", "more than 16 leases", nil, err != nil, "")
+			}
+		}
+		// missing (nil) arguments: the constructor refuses, or what it returns validates and comes back
+		// from the wire (a value without a signature or a key serialises to bytes no parser accepts)
+		if i%10 == 5 {
+			d, _, _ := lib.BuildDestination(m.Dest)
+			sk, _ := lib.SigningKeyOf(st, m.SigningKey)
+			ek, _ := lib.CryptoKeyOf(0, m.EncKey)
+			var ll []lease.Lease
+			for _, x := range m.Leases {
+				if l, err := lib.BuildLease(x); err == nil {
+					ll = append(ll, *l)
+				}
+			}
+			if d != nil && sk != nil && ek != nil {
+				// (only the private key: nil public keys are outside what any statement speaks about - the
+				// constructor dereferences them - and are not fed)
+				for _, what := range []string{"signing private key missing (nil)"} {
+					var v *lease_set.LeaseSet
+					var cerr error
+					panicked := func() (p bool) {
+						defer func() { p = recover() != nil }()
+						v, cerr = lease_set.NewLeaseSet(*d, ek, sk, ll, nil)
+						return
+					}()
+					if panicked {
+						c.Bucket("defect/lease_set.NewLeaseSet/" + what + ": panics (not judged)")
+						continue
+					}
+					c.Eval(1)
+					if cerr != nil || v == nil {
+						c.Bucket("defect/lease_set.NewLeaseSet/" + what + ": rejected")
+						continue
+					}
+					c14Chain(c, "lease_set.NewLeaseSet", gen.Shape{"class": what}, nil, v.Validate, v.Bytes, func(b []byte) ([]byte, int, error) {
+						p, err := lease_set.ReadLeaseSet(b)
+						if err != nil {
+							return nil, 0, err
+						}
+						s, err := p.Bytes()
+						return s, 0, err
+					})
+				}
 			}
 		}
 	})
